@@ -163,7 +163,7 @@ def main():
             try:
                 mods = sorted({h["module"] for h in hs})
                 inj_log = run_kani.inject(wc, t, mods)
-                k_results = run_kani.run_harnesses(wc, hs, outdir, jobs=args.jobs)
+                k_results = run_kani.run_grouped(wc, hs, outdir, jobs=args.jobs)
             except Undecided as e:
                 for h in hs:
                     k_results[h["path"]] = dict(harness=h["path"], name=h["name"], obligation=h["obligation"],
